@@ -43,11 +43,11 @@ type Prop struct{}
 func (Prop) ID() string    { return "C13" }
 func (Prop) Level() string { return "exploration" }
 func (Prop) Rule() string {
-	return "mutants: for each of the 6 constructors (create v0/v1, derive v0/v1, one-to-one anytype/any) x K key sets (quick 12, thorough 200): the unmodified output must be accepted by every entry point; then every byte position (quick: every 3rd, PRNG offset) of raw header / ACL root / settings root is XOR-ed with a non-zero byte, once with ids kept and once with the content id re-hashed; every character of the three ids is replaced; suffix edits; single-field protobuf edits of SpaceHeader, RawSpaceHeader, AclRoot, RawRecord, RootChange, RawTreeChange with ids re-hashed and signatures kept; re-encodings; truncations. A mutant whose three (signed bytes, signature) pairs decode to the originals and whose ids are the correct hashes of its raw bytes is 'equivalent' and not judged; every other mutant must be rejected by every entry point. cross: every ordered constructor pair (36) x {different owners, same owner} x reps: all 62 non-trivial selections of the 6 components (3 raw parts, 3 ids) from two valid spaces must be rejected unless the selection is byte-identical to one of the two spaces. onetoone: key triples (a,b,c) x both types. A case is non-trivial when its baseline was accepted by all entry points and at least one non-equivalent mutant was judged; distinct = (constructor, key material)."
+	return "mutants: for each of the 6 constructors (create v0/v1, derive v0/v1, one-to-one anytype/any) x K key sets (quick 12, thorough 200): the unmodified output must be accepted by every entry point; then every byte position (quick: every 3rd, PRNG offset) of raw header / ACL root / settings root is XOR-ed with a non-zero byte, once with ids kept and once with the content id re-hashed; every character of the three ids is replaced; suffix edits; single-field protobuf edits of SpaceHeader, RawSpaceHeader, AclRoot, RawRecord, RootChange, RawTreeChange with ids re-hashed and signatures kept; re-encodings; truncations. A mutant whose three (signed bytes, signature) pairs decode to the originals and whose ids are the correct hashes of its raw bytes is 'equivalent' and not judged; every other mutant must be rejected by every entry point. cross: every ordered constructor pair (36) x {different owners, same owner} x reps: all 62 non-trivial selections of the 6 components (3 raw parts, 3 ids) from two valid spaces must be rejected unless the selection is byte-identical to one of the two spaces. onetoone: key triples (a,b,c) x both types. resigned (inside every mutants case): headers with a GENUINE fresh signature - the owner's own header with one field edited (incl. version values outside the enum: 2, 3, 100, -1, 2^20) and signed again, and a third party's own header of every version value - offered with the original roots; whenever the offered header neither embeds exactly the offered roots nor is named by both of them, every entry point must reject. A case is non-trivial when its baseline was accepted by all entry points and at least one non-equivalent mutant was judged; distinct = (constructor, key material)."
 }
 func (Prop) Assumptions() []string {
 	return []string{
-		"the attacker can re-hash (content ids are public functions of bytes) but holds no private key of the space owner; mutants never carry a fresh owner signature",
+		"the attacker can re-hash (content ids are public functions of bytes) but holds no private key of the space owner; the byte/field/id mutants never carry a fresh owner signature; the 'resigned' sub-step models the owner himself (or a third party with his own key) signing a different header and is judged only on the header<->roots binding",
 		"a mutant that decodes to the same signed header / ACL record / settings change with the same signatures, only re-encoded (and therefore re-hashed), is semantically the same space content and is not required to be rejected (counted as equivalent.*)",
 		"roots or headers freshly signed by a third party's own key (forged v0 roots naming the victim's space id; a foreign v1 header embedding the victim's roots) are outside the property's quantifier; they are probed and counted under info.* only - see FINDINGS.md",
 		"create constructors read crypto/rand and the clock, so replaying a case reproduces the structure (keys, positions, classes) but not the random seed / timestamp bytes; witnesses carry the full payloads",
